@@ -1,5 +1,6 @@
 import VarmqVerif.Proofs.LifeC
 import VarmqVerif.Proofs.Res
+import VarmqVerif.Proofs.Sig2
 import VarmqVerif.Tie.Facts
 /-!
   C14 — lifecycle calls follow the documented state machine for every call sequence.
@@ -37,5 +38,16 @@ theorem ctx_cancel_can_stop {s : State} (hi : Inv s) (hc : s.hasCtx = true) (hx 
 /-- the status strings of the current tree -/
 theorem worker_status_strings : Generated.workerStatusStrings = [(0, "Initiated"), (1, "Running"), (2, "Paused"), (3, "Stopped")] :=
   Tie.worker_status_strings
+
+/-- "never Running while unable to process": at the granularity of the signal channel and the event
+    loops (model `Sig2`, any number of Stop/Restart cycles and goroutines), whenever the status is
+    Running the worker's current signal channel is open and an event loop that has not ended listens
+    on it -/
+theorem running_has_event_loop {s : Sig2.State} (h : Sig2.Reach s) (hw : s.ws = Sig2.running) : Sig2.Listening s :=
+  Sig2.running_listening h hw
+
+/-- a closed signal channel is never the worker's current one -/
+theorem closed_channel_not_current {s : Sig2.State} (h : Sig2.Reach s) {ch : Nat} (hc : s.chan = some ch) :
+    s.closed ch = false := Sig2.closed_never_current h hc
 
 end VarmqVerif.Props.C14
